@@ -40,10 +40,10 @@ func extractRoundingRule(value Value) fix.RoundingMode {
 // handleFixedPointConversionError handles errors from the fixed-point library
 // during narrowing conversions (e.g. Fix128 → Fix64).
 //
-// Unlike handleFixedpointError (used for Fix128 arithmetic),
-// this function does NOT ignore UnderflowError:
-// for narrowing conversions, a nonzero value that rounds to zero
-// is a loss of the entire value, not just precision.
+// Like handleFixedpointError (used for Fix128 arithmetic),
+// this function ignores UnderflowError:
+// a nonzero value that gets rounded to zero by the given rounding rule is not an error,
+// zero is representable, and the conversion without a rounding rule also results in zero.
 func handleFixedPointConversionError(err error) {
 	switch err.(type) {
 	case nil:
@@ -53,7 +53,8 @@ func handleFixedPointConversionError(err error) {
 	case fix.NegativeOverflowError:
 		panic(&UnderflowError{})
 	case fix.UnderflowError:
-		panic(&UnderflowError{})
+		// The value got rounded to zero
+		return
 	default:
 		panic(err)
 	}
